@@ -102,7 +102,13 @@ def run(ctx, spec):
     outcome["correspondence"]["monitor_judged_impl_steps"] = mon_judged
     outcome["correspondence"]["monitor_rejected"] = len(mon_fails)
     outcome["traces_validated_against_impl"] = mon_judged
-    if not bad and not rdiffs and not mon_fails:
+    # ---- history-level judgement (C05): values paid at most once along every episode ----
+    hist_viol = []
+    if pid == "C05":
+        hist_viol = history_part(cases, outcome)
+    # ---- exhaustive bounded exploration: complete reachable transition graphs of small scenarios ----
+    ex_viol = explore_part(ctx, spec, outcome, rng)
+    if not bad and not rdiffs and not mon_fails and not ex_viol and not hist_viol:
         return outcome
 
     # ---- something disagrees: look for a failing input ----
@@ -171,8 +177,105 @@ def run(ctx, spec):
                               verdicts=dict(zip(sorted(MONITOR_IDX), v))))
         for u in unexplained:
             u["judged_steps_in_search"] = judged
+    found = hist_viol + ex_viol + found
     outcome["violations"] += found[:5] if found else unexplained[:3]
     return outcome
+
+
+def history_part(cases, outcome):
+    """the implementation's own episodes (maximal runs of step() between resets), judged by
+    the Coq history monitor ok_C05_history"""
+    cmds, index = [], []
+    for c in cases:
+        segs, cur_states, cur_vals, cur_ops = [], [c["impl_init"]], [], []
+        for i, (op, out) in enumerate(zip(c["ops"], c["impl"])):
+            if out[0] == 9:
+                continue
+            if op[0] == 0:
+                segs.append((cur_states, cur_vals, cur_ops))
+                cur_states, cur_vals, cur_ops = [out[2]], [], []
+            elif op[0] == 1:
+                cur_states.append(out[1][0])
+                cur_vals.append(out[1][4][1])
+                cur_ops.append(i)
+        segs.append((cur_states, cur_vals, cur_ops))
+        segs = [g for g in segs if len(g[0]) > 1 and not dyn.has_bad(g[0])]
+        if segs:
+            cmds.append([14, c["cmd"][1], [[g[0], g[1]] for g in segs]])
+            index.append((c, segs))
+    outs = run_driver(cmds) if cmds else []
+    viol, judged = [], 0
+    for (c, segs), verdicts in zip(index, outs):
+        if verdicts == [-1]:
+            continue
+        for g, v in zip(segs, verdicts):
+            judged += 1
+            if not v:
+                last = g[2][-1]
+                first = g[2][0]
+                viol.append(dict(kind="history", property="C05", failing_input_found=True,
+                                 what="along this episode of the implementation a host value or discovery value is "
+                                      "paid more than once (or the values paid do not add up to what was gained)",
+                                 scenario=c["sd"], modes=c["modes"], ops=c["ops"][:last + 1], episode_starts_at=first,
+                                 values=g[1]))
+    outcome["correspondence"]["history_monitor_episodes"] = judged
+    return viol[:3]
+
+
+def explore_part(ctx, spec, outcome, rng):
+    """every reachable state x every flat action x both draw outcomes, on small scenarios"""
+    import explore as ex
+    pid, tier = ctx["pid"], ctx["tier"]
+    nscen, max_states = spec.get("explore", {}).get(tier, (0, 0))
+    midx = MONITOR_IDX.get(pid)
+    fields = set(spec.get("resync_fields", set())) | {f for f in spec.get("traj_fields", set()) if f in dyn.STEP_FIELDS}
+    viol, tot_states, tot_trans, complete = [], 0, 0, 0
+    for n in range(nscen):
+        if n == 0:
+            sc_ = scen.shipped_scenario("tiny")
+            sd = scen.scenario_to_sd(sc_)
+        elif n in (1, 2, 3):
+            sd = scen.open_sd(rng, *[("ring", 5), ("diamond", 5), ("star", 4)][n - 1])
+            sc_ = scen.sd_to_scenario(sd)
+        else:
+            sd = scen.explore_sd(rng)
+            sc_ = scen.sd_to_scenario(sd)
+        modes = (0, 1, 0)
+        e = ex.explore(sd, sc_, modes, max_states)
+        tot_states += e["states"]
+        tot_trans += e["transitions"]
+        complete += int(e["complete"])
+        recs = [r for r in e["records"] if not dyn.has_bad(r)]
+        if len(recs) != len(e["records"]):
+            viol.append(dict(kind="step-record", property=pid, failing_input_found=True, scenario=sd,
+                             what="a state row of the implementation is not decodable with the documented layout",
+                             record=[r for r in e["records"] if dyn.has_bad(r)][0]))
+            continue
+        sdw = scen.sd_wire(sd)
+        mo, verdicts = run_driver([[5, sdw, list(modes), [[r[0], r[1], r[2]] for r in recs]], [3, sdw, recs]])
+        for r, m, v in zip(recs, mo, verdicts):
+            da = dyn.split_out([2, [r[3], None, r[6], r[7], r[4], r[5]], 0])
+            db = dyn.split_out([2, m, 0])
+            f = next((f for f in dyn.STEP_FIELDS if f in fields and f != "obs" and da.get(f) != db.get(f)), None)
+            rejected = midx is not None and not v[midx]
+            if rejected or f is not None:
+                viol.append(dict(
+                    kind="step-record", property=pid, failing_input_found=bool(rejected or f in spec.get("direct_fields", set())),
+                    scenario=sd, modes=list(modes), record=r, field=f,
+                    what=(f"monitor ok_{pid} rejects this implementation step (found by exhaustive exploration)"
+                          if rejected else
+                          f"implementation and model disagree on '{f}' for this step (exhaustive exploration)"),
+                    broken=None if rejected else f"exhaustive per-step correspondence dyn/{pid}, field '{f}'",
+                    impl=str(da.get(f))[:800] if f else None, model=str(db.get(f))[:800] if f else None,
+                    verdicts=dict(zip(sorted(MONITOR_IDX), v))))
+                break
+    outcome["correspondence"]["exhaustive_exploration"] = dict(
+        scenarios=nscen, complete_graphs=complete, states=tot_states, transitions=tot_trans, max_states=max_states)
+    outcome["states"], outcome["transitions"] = tot_states, tot_trans
+    outcome["exhaustive"] = bool(nscen) and complete == nscen
+    outcome["evaluations"] += tot_trans
+    rej = [v for v in viol if v["failing_input_found"]]
+    return (rej or viol)[:3]
 
 
 def replay(ctx, spec, payload):
